@@ -40,8 +40,9 @@ Lemma Inv_agg_same s s' :
 Proof.
   intros H1 H2 H3 H4 H5 H6 H7 H8 H9 HA. apply Inv_frame; auto.
   - intros t. rewrite H4. auto.
-  - intros k e (a & Ha & Hf). unfold agg_same in HA. rewrite Ha in HA.
-    destruct (agg s') as [b|] eqn:Eb; [|tauto]. destruct HA as (A1 & A2 & A3). exists b. rewrite A1, A2. auto.
+  - intros k f' (a & e & Ha & Hf & Hle). unfold agg_same in HA. rewrite Ha in HA.
+    destruct (agg s') as [b|] eqn:Eb; [|tauto]. destruct HA as (A1 & A2 & A3). exists b, e. rewrite A1, A2, A3.
+    repeat split; auto. lia.
   - intros HL b k e Hb Hin. unfold agg_same in HA. rewrite Hb in HA.
     destruct (agg s) as [a|] eqn:Ea; [|tauto]. destruct HA as (A1 & A2 & A3). rewrite A1, A2 in Hin. rewrite A3. eapply HL; eauto.
   - unfold agg_len, agg_same in *. destruct (agg s) as [a|]; destruct (agg s') as [b|]; try tauto; try lia.
@@ -57,8 +58,7 @@ Qed.
 
 Lemma lock_pess_Inv keys rv ce loie f o s :
   Inv s -> valid s = true -> pess s = true -> fu s <= f ->
-  (forall a, agg s = Some a -> exists k, keys = [k] /\ findk k (cur a) = None /\
-       (in_prev s k = true -> hard_fail o = false /\ (loie = true -> ~ In k (lo_absent o)))) ->
+  (forall a, agg s = Some a -> exists k, keys = [k] /\ findk k (cur a) = None) ->
   Inv (fst (lock_pess keys rv ce loie f o s)).
 Proof.
   intros HInv Hv Hp Hle Hagg. unfold lock_pess.
@@ -73,41 +73,17 @@ Proof.
   assert (B4 : book_ok s4) by (unfold book_ok; rewrite P5, P6, P9; auto).
   destruct (agg s4) as [a4|] eqn:E4.
   - unfold agg_same in P10. destruct (agg s) as [a|] eqn:Ea; [|tauto]. destruct P10 as (A1 & A2 & A3).
-    destruct (Hagg a eq_refl) as (k & Hk & Hnc & Hsafe). subst keys.
+    destruct (Hagg a eq_refl) as (k & Hk & Hnc). subst keys.
     rewrite filter_agg_single. rewrite <- A1 in Hnc.
     destruct (findk k (prev a4)) as [e|] eqn:Ep.
     + destruct (f <? e_lwc e) eqn:El.
       * simpl. rewrite set_agg_same; auto.
-      * apply N.ltb_ge in El.
-        assert (Hsf : hard_fail o = false /\ (loie = true -> ~ In k (lo_absent o))).
-        { apply Hsafe. unfold in_prev. rewrite Ea. apply memk_In. rewrite <- A2. eapply findk_keys; eauto. }
-        destruct (if negb (aprim a4) || opt_eqb (alastpk a4) (apk a4) then if lo_expired o then None else try_skip e rv ce else None) as [e'|] eqn:Esk.
+      * destruct (if negb (aprim a4) || opt_eqb (alastpk a4) (apk a4) then if lo_expired o then None else try_skip e rv ce else None) as [e'|] eqn:Esk.
         -- simpl. apply skip_Inv with e; auto.
            destruct (negb (aprim a4) || opt_eqb (alastpk a4) (apk a4)); [|discriminate].
            destruct (lo_expired o); [discriminate|]. eapply try_skip_lwc; eauto.
-        -- simpl. destruct HI4 as (HI & HL & HC).
-           apply (lock_rpc_agg k (a_prev (delk k (prev a4)) a4) assigned rv ce loie f o _ true); auto.
-           ++ intros p Hin. simpl in Hin. destruct (HI p Hin) as [[B Hc]|Ht].
-              ** destruct p as [k0 [f'|]]; simpl in Hc; [|tauto].
-                 destruct Hc as [Hc|(e0 & (a0 & Ha0 & Hfd) & H2)].
-                 --- left. left. split; [exact B|]. simpl. auto.
-                 --- rewrite E4 in Ha0. inversion Ha0; subst a0.
-                     destruct (N.eq_dec k0 k) as [E|E].
-                     +++ subst k0. destruct Hfd as [Hfd|Hfd]; [congruence|].
-                         rewrite Ep in Hfd. inversion Hfd; subst e0.
-                         right. split; auto. split; auto. exists f'. split; auto. simpl. lia.
-                     +++ left. left. split; [exact B|]. simpl. right. exists e0. split; auto.
-                         eexists. split; [reflexivity|]. simpl. destruct Hfd as [Hfd|Hfd]; auto. right.
-                         rewrite findk_delk_ne; auto.
-              ** left. right. destruct Ht as (t & T1 & T2). exists t; auto.
-           ++ intros a' k0 e0 Ha' Hin. simpl in Ha'. inversion Ha'; subst a'. simpl in *.
-              apply (HL a4 k0 e0 E4). apply in_app_or in Hin. apply in_or_app.
-              destruct Hin as [Hin|Hin]; auto. apply In_delk in Hin. tauto.
-           ++ unfold cnt_ok, agg_len in *. cbn [agg set_agg flags cnt cur prev a_prev]. rewrite E4 in HC.
-              pose proof (length_delk k (prev a4)). unfold len in *. lia.
-    + simpl. rewrite set_agg_same; auto. destruct HI4 as (HI & HL & HC).
-      apply (lock_rpc_agg k a4 assigned rv ce loie f o s4 false); auto.
-      intros Hf. discriminate.
+        -- simpl. rewrite set_agg_same; auto. apply (lock_rpc_agg k a4 assigned rv ce loie f o s4); auto.
+    + simpl. rewrite set_agg_same; auto. apply (lock_rpc_agg k a4 assigned rv ce loie f o s4); auto.
   - simpl. apply lock_rpc_noagg; auto.
 Qed.
 
@@ -125,11 +101,11 @@ Proof.
 Qed.
 
 Lemma Inv_lock_keys ks rv ce loie f o s :
-  Inv s -> valid s = true -> fu s <= f -> relock_safe s ks loie o ->
+  Inv s -> valid s = true -> fu s <= f ->
   Inv (lock_keys ks rv ce loie f o s).
 Proof.
-  intros HInv Hv Hle Hsafe. unfold lock_keys, lock_keys_full.
-  destruct (exit_agg_props ks s HInv) as (HI1 & Hv1 & Hf1 & Hm1). unfold relock_safe in Hsafe.
+  intros HInv Hv Hle. unfold lock_keys, lock_keys_full.
+  destruct (exit_agg_props ks s HInv) as (HI1 & Hv1 & Hf1 & Hm1).
   set (s1 := exit_agg ks s) in *.
   destruct (negb (pess s1) && match agg s1 with Some _ => true | None => false end); [exact HI1|].
   destruct (lo_early o); [exact HI1|].
@@ -147,10 +123,9 @@ Proof.
     intros a Ha. pose proof (Hm1 a Ha) as Hm. apply many_false_cases in Hm.
     destruct Hm as [Hm|(k & Hm)]; rewrite Hm in *; [simpl in Ek; discriminate|].
     simpl in Ek. simpl. destruct (need_lock s1 k) eqn:En; [|discriminate].
-    exists k. split; [reflexivity|]. split.
-    + apply in_cur_findk with s1; auto. unfold need_lock in En.
-      apply andb_true_iff in En. destruct En as [En _]. apply negb_true_iff in En. auto.
-    + intros Hpr. apply Hsafe; simpl; auto.
+    exists k. split; [reflexivity|].
+    apply in_cur_findk with s1; auto. unfold need_lock in En.
+    apply andb_true_iff in En. destruct En as [En _]. apply negb_true_iff in En. auto.
   - simpl. destruct HI1 as (HI & HL & HC).
     apply (finish_lock_Inv _ rv ce loie [] 0 s1 []); auto.
     + intros a Ha. lia.
@@ -160,7 +135,8 @@ Qed.
 (* ---- every step preserves the invariant ---- *)
 Lemma Inv_step s e : Inv s -> wf_ev s e -> Inv (step s e).
 Proof.
-  intros HInv [Hapi Hsafe]. destruct e; simpl in *.
+  intros HInv Hapi. unfold wf_ev in Hapi. destruct e; simpl in *.
+  - apply Inv_written; auto.
   - apply Inv_written; auto.
   - apply Inv_presume. apply Inv_written; auto.
   - destruct Hapi. apply Inv_lock_keys; auto.
@@ -171,6 +147,7 @@ Proof.
   - apply Inv_commit; auto.
   - apply Inv_rollback; auto.
   - apply Inv_run_nth; auto.
+  - apply Inv_run_some; auto.
 Qed.
 
 Lemma Inv_run s evs : Inv s -> wf_run s evs -> Inv (run s evs).
